@@ -1,6 +1,9 @@
 import NmVerif.Proto
 import NmVerif.NN.Conv
 import NmVerif.NN.Pool
+import NmVerif.NN.PoolReduce
+import NmVerif.NN.F32
+import NmVerif.NN.Compose
 namespace NmVerif.Driver.C17
 open NmVerif NmVerif.Proto NmVerif.NN
 
@@ -42,6 +45,75 @@ def conv (n : Nat) (a : Args) : Option String := do
   let g ← a.nat "groups"
   pure (fmtRes (convnd n x w b s p d g))
 
+/-! ### the composed routines at the element types of the harness -/
+
+def f32max (t u : Float32) : Float32 := if u < t then t else u
+def f32eps (m e : Nat) : Float32 := (Float.ofScientific m true e).toFloat32
+def f32divn (s : Float32) (n : Nat) : Float32 := s / n.toFloat32
+def f32sqabs (t : Float32) : Float32 := t.abs * t.abs
+
+def fmtIntView (v : Option (Arr (Option Int))) : String :=
+  match v with
+  | none => "nothing"
+  | some r =>
+    match (allIdx r.shape).mapM r.get with
+    | some vals => s!"ok shape={fmtNats r.shape} data={fmtInts vals}"
+    | none => "ub:element"
+
+def optArr {β : Type} (mk : Args → String → Option (Arr β)) (a : Args) (key : String) : Option (Option (Arr β)) :=
+  match a.get? key with
+  | some "None" => some none
+  | some _ => (mk a key).map some
+  | none => none
+
+def composed (op : String) (a : Args) : Option String :=
+  match op with
+  | "softmax" => do
+      let x ← F32.mkArr a "x"; let ax ← a.int "axis"
+      pure (F32.fmtView (softmax f32max (· - ·) (· + ·) (· / ·) Float32.exp (lift x) ax))
+  | "softmin" => do
+      let x ← F32.mkArr a "x"; let ax ← a.int "axis"
+      pure (F32.fmtView (softmin f32max (· - ·) (· + ·) (· / ·) Float32.exp (fun t => -t) (lift x) ax))
+  | "linear" => do
+      if a.get? "dt" == some "i" then
+        let x ← mkArr a "x"; let w ← mkArr a "w"; let b ← optArr mkArr a "b"
+        pure (fmtIntView (linear (· + ·) (· * ·) x w b))
+      else
+        let x ← F32.mkArr a "x"; let w ← F32.mkArr a "w"; let b ← optArr F32.mkArr a "b"
+        pure (F32.fmtView (linear (· + ·) (· * ·) x w b))
+  | "bilinear" => do
+      if a.get? "dt" == some "i" then
+        let x ← mkArr a "a"; let y ← mkArr a "b"; let w ← mkArr a "w"; let c ← optArr mkArr a "c"
+        pure (fmtIntView (bilinear (· + ·) (· * ·) x y w c))
+      else
+        let x ← F32.mkArr a "a"; let y ← F32.mkArr a "b"; let w ← F32.mkArr a "w"; let c ← optArr F32.mkArr a "c"
+        pure (F32.fmtView (bilinear (· + ·) (· * ·) x y w c))
+  | "pairwise_distance" => do
+      let x ← F32.mkArr a "a"; let y ← F32.mkArr a "b"
+      let (ord, eps, keep) ← (if (a.get? "form").isSome then some ((2 : Nat), f32eps 1 6, false) else do
+        let o ← a.nat "ord"; let e ← (a.get? "eps").bind F32.parseReal; let k ← a.nat "keepdims"
+        pure (o, e, k != 0))
+      let p := ord.toFloat32
+      pure (F32.fmtView (pairwiseDistance (· + ·) (· - ·) (fun t => Float32.pow t.abs p) (fun t => Float32.pow t (1 / p)) eps x y keep))
+  | "cosine_similarity" => do
+      let x ← F32.mkArr a "a"; let y ← F32.mkArr a "b"
+      let ax ← (if (a.get? "form").isSome then some (1 : Int) else a.int "axis")
+      pure (F32.fmtView (cosineSimilarity (· + ·) (· * ·) (· / ·) f32max (fun t => Float32.pow t.abs 2) (fun t => Float32.pow t (1 / 2))
+        (f32eps 1 8) x y ax))
+  | "batch_norm" => do
+      let x ← F32.mkArr a "x"; let m ← F32.mkArr a "m"; let v ← F32.mkArr a "v"; let w ← F32.mkArr a "w"; let b ← F32.mkArr a "b"
+      pure (F32.fmtView (batchNorm (· + ·) (· - ·) (· * ·) (· / ·) Float32.sqrt (f32eps 1 5) x m v w b))
+  | "layer_norm" => do
+      let x ← F32.mkArr a "x"; let w ← F32.mkArr a "w"; let b ← F32.mkArr a "b"
+      pure (F32.fmtView (layerNorm (· + ·) (· - ·) (· * ·) (· / ·) f32sqabs Float32.sqrt f32divn (f32eps 1 5) x w b))
+  | "instance_norm" => do
+      let x ← F32.mkArr a "x"; let w ← F32.mkArr a "w"; let b ← F32.mkArr a "b"; let nd ← a.nat "nd"
+      pure (F32.fmtView (instanceNorm (· + ·) (· - ·) (· * ·) (· / ·) f32sqabs Float32.sqrt f32divn (f32eps 1 5) x w b nd))
+  | "group_norm" => do
+      let x ← F32.mkArr a "x"; let w ← F32.mkArr a "w"; let b ← F32.mkArr a "b"; let g ← a.nat "groups"
+      pure (F32.fmtView (groupNorm (· + ·) (· - ·) (· * ·) (· / ·) f32sqabs Float32.sqrt f32divn (f32eps 1 5) x w b g))
+  | _ => none
+
 def handle : Handler := fun op a =>
   match op with
   | "conv1d" => orBad (conv 1 a)
@@ -64,6 +136,27 @@ def handle : Handler := fun op a =>
         match (allIdx os).mapM (poolFold s k st) with
         | some vals => pure s!"ok shape={fmtNats os} data={fmtNats vals}"
         | none => pure "ub:window"
+  | "max_pool2d" => orBad do
+      let k ← a.nats "kernel"; let st ← a.nats "stride"; let c ← a.nat "ceil"
+      -- integer-valued data: evaluated over Int (exact); otherwise over Float32
+      match mkArr a "x" with
+      | some x =>
+        match maxPool2d x k st (c != 0) with
+        | none => pure "ub:rank"
+        | some v =>
+          match (allIdx v.shape).mapM v.get with
+          | some vals => pure s!"ok shape={fmtNats v.shape} data={fmtInts vals}"
+          | none => pure "ub:window"
+      | none =>
+        let x ← F32.mkArr a "x"
+        pure (F32.fmtView (maxPool2d x k st (c != 0)))
+  | "avg_pool2d" => orBad do
+      -- avg_reducer_t: elements promoted to float32, summed from the first element, divided by the slice's element count
+      let x ← F32.mkArr a "x"
+      let k ← a.nats "kernel"; let st ← a.nats "stride"; let c ← a.nat "ceil"
+      pure (F32.fmtView (avgPool2d (· + ·) (fun s n => s / n.toFloat32) x k st (c != 0)))
+  | "softmax" | "softmin" | "linear" | "bilinear" | "pairwise_distance" | "cosine_similarity"
+  | "batch_norm" | "layer_norm" | "instance_norm" | "group_norm" => orBad (composed op a)
   | _ => none
 
 end NmVerif.Driver.C17
